@@ -288,7 +288,55 @@ def r6(ctx):
     ctx.floor(R, 2)
 
 
+def r7(ctx):
+    R = "C12-R7"
+    ctx.rule(R, "reference-count agreement: StreamSocket::new initialises ref_ct to N, Tcp::close_stream_half removes the entry only after N "
+                "decrements of 1, and exactly N distinct owners - the Drop impls of the halves TcpStream::new builds - call it; everything "
+                "else that must get rid of an entry (failed / cancelled connect, unread-data reset, RST) uses Tcp::reset_stream, which removes it outright")
+    new = ctx.body(R, "turmoil::host::StreamSocket::new")
+    n0 = None
+    if new:
+        for bb, i, s in new.all_stmts():
+            r = s["r"]
+            if r["k"] == "agg" and r.get("adt") == "turmoil::host::StreamSocket":
+                m = dict(zip(r["fields"], r["ops"]))
+                c = op_const(m.get("ref_ct"))
+                if c is not None:
+                    n0 = c.get("v")
+        ctx.inst(R, "ref_ct:initial", isinstance(n0, int), new.span, f"ref_ct starts at {n0}" if isinstance(n0, int) else "StreamSocket::new does not initialise ref_ct with a constant")
+    owners = {}
+    for b, bb, t in who_calls(ctx.w, "turmoil::host::Tcp::close_stream_half"):
+        root = b
+        while root.parent and root.parent in ctx.w.bodies:
+            root = ctx.w.bodies[root.parent]
+        owners.setdefault(root.id, t["s"])
+    a = ctx.w.adts.get("turmoil::net::tcp::stream::TcpStream")
+    halves = set()
+    if a:
+        tys = ctx.w.tys[a["crate"]]
+        halves = {tys[f["ty"]].get("adt") for v in a["variants"] for f in v["fields"] if "ty" in f and tys[f["ty"]].get("adt", "").startswith("turmoil::")}
+    for rid, site in sorted(owners.items()):
+        m = re.match(r"<(.+) as std::ops::Drop>::drop$", rid)
+        m = m if m and m.group(1) in halves else None
+        ctx.inst(R, f"half-release:{rid}", bool(m), site, "a stream half gives up its own reference" if m else
+                 f"`{rid}` calls Tcp::close_stream_half but owns none of the entry's references: one decrement leaves the entry (and its port) registered forever - use reset_stream")
+    if isinstance(n0, int):
+        ok = len(owners) == n0
+        ctx.inst(R, "ref_ct:owners", ok, new.span, f"{len(owners)} owners for ref_ct = {n0}" if ok else
+                 f"ref_ct starts at {n0} but {len(owners)} owner(s) call close_stream_half: the entry is removed too early or never")
+    ch = ctx.body(R, "turmoil::host::Tcp::close_stream_half")
+    if ch:
+        lin_ok = False
+        for bb, i, s in ch.all_stmts():
+            if place_last_field(s["p"]) == "turmoil::host::StreamSocket::ref_ct" and s["r"]["k"] == "use":
+                lin = linear(ch, s["r"]["o"])
+                lin_ok = bool(lin and lin[0] == ("field", "turmoil::host::StreamSocket::ref_ct") and lin[1] == -1)
+        ctx.inst(R, "ref_ct:decrement", lin_ok, ch.span, "close_stream_half decrements ref_ct by exactly 1" if lin_ok else "close_stream_half no longer decrements ref_ct by exactly 1")
+    ctx.floor(R, 5)
+
+
 def run(ctx):
+    r7(ctx)
     from . import C15
     C15.r1(ctx)   # connect allocates its local port through assign_ephemeral_port: an in-use port makes new_stream panic
     r1(ctx)
